@@ -6,7 +6,15 @@ class InjectedFault(Exception):
     pass
 
 
-FAULT_CLASSES = [InjectedFault, ValueError, ZeroDivisionError, KeyError, FloatingPointError]
+class InjectedAttributeError(AttributeError):
+    pass
+
+
+# ordinary exceptions only: not dagrt's control exceptions, StopIteration or GeneratorExit
+FAULT_CLASSES = [InjectedFault, ValueError, ZeroDivisionError, KeyError, FloatingPointError,
+                 AttributeError, TypeError, IndexError, RuntimeError, NotImplementedError, AssertionError,
+                 OSError, NameError, ArithmeticError, LookupError, InjectedAttributeError, UnboundLocalError,
+                 OverflowError, BufferError]
 
 
 class FuncTable:
